@@ -78,6 +78,25 @@ Lemma N_shiftl_mul a p : N.shiftl a (Npos p) = (a * 2 ^ Npos p)%N. Proof. apply 
 Lemma N_div64 a : (a / 64 = N.shiftr a 6)%N. Proof. rewrite N.shiftr_div_pow2. reflexivity. Qed.
 Lemma N_mod64 a : (a mod 64 = N.land a 63)%N. Proof. change 63%N with (N.ones 6). rewrite N.land_ones. reflexivity. Qed.
 
+(* the two ways of testing bit b of a word: w & (1 << b) != 0 and (w >> b) & 1 != 0 *)
+Lemma land_shiftl_testbit w b : (N.land w (N.shiftl 1 b) =? 0)%N = negb (N.testbit w b).
+Proof.
+  destruct (N.testbit w b) eqn:E; cbn [negb].
+  - apply N.eqb_neq. intros H. apply (f_equal (fun x => N.testbit x b)) in H.
+    rewrite N.land_spec, E, N.shiftl_spec_high', N.sub_diag, N.bits_0 in H by lia. discriminate.
+  - apply N.eqb_eq. apply N.bits_inj. intros k. rewrite N.land_spec, N.bits_0.
+    destruct (N.lt_ge_cases k b) as [Hk|Hk]; [rewrite N.shiftl_spec_low by assumption; apply andb_false_r|].
+    rewrite N.shiftl_spec_high' by assumption. destruct (N.eq_dec k b) as [->|Hne]; [rewrite E; reflexivity|].
+    replace (k - b)%N with (N.succ (N.pred (k - b))) by lia. rewrite N.bit0_odd || idtac.
+    change 1%N with (N.b2n true). rewrite N.testbit_succ_r_div2, N.div2_spec by lia. cbn [N.b2n N.shiftr]. 
+    rewrite N.bits_0. apply andb_false_r.
+Qed.
+Lemma land_shiftr_testbit w b : (N.land (N.shiftr w b) 1 =? 0)%N = negb (N.testbit w b).
+Proof.
+  replace (N.testbit w b) with (N.testbit (N.shiftr w b) 0) by (rewrite N.shiftr_spec'; f_equal; lia).
+  change 1%N with (N.ones 1). rewrite N.land_ones. change (2 ^ 1)%N with 2%N.
+  rewrite <- N.bit0_mod. destruct (N.testbit (N.shiftr w b) 0); reflexivity.
+Qed.
 (* uint64 wrap-around is the identity on words below 2^64 *)
 Lemma wrap64_small x : (x < 2 ^ 64)%N -> wrap 64 (Z.of_N x) = Z.of_N x.
 Proof. intros H. unfold wrap. apply Z.mod_small. lia. Qed.
@@ -139,6 +158,13 @@ Proof.
   replace (Z.to_nat (Z.of_N i)) with (N.to_nat i) by lia. rewrite upd_zs.
   destruct (Z.ltb_spec (Z.of_N i) (Z.of_nat (length l))), (Nat.ltb_spec (N.to_nat i) (length l)); try reflexivity; lia.
 Qed.
+(* a word beyond the old length of a grown set is zero (Add written as "grow, then one common test-and-set") *)
+Lemma nth_grown_zero (set : list N) k i : (length set <= i)%nat -> nth i (set ++ repeat 0%N k) 0%N = 0%N.
+Proof.
+  intros H. rewrite app_nth2 by lia. destruct (Nat.lt_ge_cases (i - length set) k) as [Hk|Hk].
+  - apply nth_repeat.
+  - apply nth_overflow. rewrite repeat_length. lia.
+Qed.
 Lemma nth_small l i : words_ok l -> (nth i l 0 < 2 ^ 64)%N.
 Proof.
   intros H. destruct (Nat.lt_ge_cases i (length l)) as [Hi|Hi].
@@ -152,7 +178,7 @@ Ltac small :=
   solve [ repeat first [ assumption | apply mask_small | apply nth_small | apply land_small | apply ldiff_small | apply lor_small
                        | reflexivity ] ].
 #[export] Hint Rewrite of_N_land of_N_lor of_N_ldiff of_N_lxor of_N_shiftl of_N_shiftr of_N_land_pos of_N_pos_land of_N_shiftr_pos
-  of_N_shiftl_pos of_N_pos_shiftl of_N_rem_pos of_N_quot_pos of_N_eqb of_N_eqb0 of_nat_shiftl_pos N_div64 N_mod64 zlen_zs repeat0_zs zs_app get_at_zs set_at_zs : bz.
+  of_N_shiftl_pos of_N_pos_shiftl of_N_rem_pos of_N_quot_pos of_N_eqb of_N_eqb0 of_nat_shiftl_pos land_shiftl_testbit land_shiftr_testbit N_div64 N_mod64 zlen_zs repeat0_zs zs_app get_at_zs set_at_zs : bz.
 #[export] Hint Rewrite wrap64_small land_wrap_lnot using small : bz.
 
 Ltac break1 :=
@@ -200,7 +226,10 @@ Ltac bool1 :=
   | |- context [?a <=? ?b] => destruct (a <=? b) eqn:?
   | |- context [?a =? ?b] => destruct (a =? b) eqn:?
   end.
-Ltac finish0 := try reflexivity; reflect; try lia; try (exfalso; intuition lia); try (repeat f_equal; lia).
+Ltac grown_zero :=
+  repeat match goal with H : context [nth ?i (?s ++ repeat 0%N ?k) 0%N] |- _ =>
+    rewrite (nth_grown_zero s k i) in H by lia; rewrite ?N.land_0_l, ?N.lor_0_l, ?N.bits_0 in H end.
+Ltac finish0 := try reflexivity; reflect; try lia; try (grown_zero; exfalso; congruence); try (exfalso; intuition lia); try (repeat f_equal; lia).
 (* last resort for arithmetic leaves: shifts by literals as multiplications (len << 6 written as len * 64) *)
 Ltac arith := repeat f_equal; rewrite ?N_shiftl_mul, ?N2Z.inj_mul, ?nat_N_Z; cbn [N.pow Pos.pow Pos.iter Pos.mul]; lia.
 Ltac finish := finish0; repeat bool1; cbn [andb orb negb]; finish0; try arith.
@@ -285,18 +314,33 @@ Proof. intros H. pose proof (skipn_length k ol) as L. rewrite H in L. cbn [lengt
 (* b.set = append(b.set, y) at the cursor *)
 Lemma append_mid done y : zs done ++ [Z.of_N y] = zs ((done ++ [y]) ++ []).
 Proof. rewrite app_nil_r. unfold zs. rewrite map_app. reflexivity. Qed.
+(* other.set[k:] *)
+Lemma slice_zs_tail ol k a h : a = Z.of_nat k -> h = Z.of_nat (length ol) -> (k <= length ol)%nat ->
+  slice (zs ol) a h = Some (zs (skipn k ol)).
+Proof.
+  intros -> -> Hk. unfold slice. unfold zs at 1. rewrite map_length.
+  destruct (Z.leb_spec 0 (Z.of_nat k)); [|lia]. destruct (Z.leb_spec (Z.of_nat k) (Z.of_nat (length ol))); [|lia].
+  rewrite Z.leb_refl. cbn [andb]. rewrite !Nat2Z.id. rewrite firstn_all2 by (rewrite skipn_length; unfold zs; rewrite map_length; lia).
+  unfold zs. rewrite skipn_map. reflexivity.
+Qed.
 
-(* The invariant of the three word-wise bulk loops, for a model function f (diff / inter / merge), at cursor i = length done:
+(* The invariant of the word-wise bulk loops, for a model function f (diff / inter / merge), at cursor i = length done:
    the receiver's words are done ++ bs (done: already final), what is left of the operand is os = skipn i ol, and
    done ++ f bs os is the model's result.  meas bs os = the iterations still to run.  mk = the shape of the loop state
-   (index loop: (b, i); range loop: (i', b)).  fixed_len: the receiver keeps its length (Diff, Intersect; a range loop
-   over b.set evaluates len(b.set) once, before the loop). *)
-Definition bulk_inv (f : list N -> list N -> list N) (meas : list N -> list N -> nat) (fixed_len : bool) (B ol : list N)
-    (S : Type) (mk : Bitmap -> Z -> S) (m : nat) (s : S) : Prop :=
-  exists done bs i, s = mk (of_model (done ++ bs)) i /\ i = Z.of_nat (length done) /\ m = meas bs (skipn (length done) ol) /\
-     (fixed_len = true -> length (done ++ bs) = length B) /\ words_ok bs /\ done ++ f bs (skipn (length done) ol) = f B ol.
-Definition bulk_post (f : list N -> list N -> list N) (B ol : list N) (S R : Type) (mk : Bitmap -> Z -> S) (out : S + R) : Prop :=
-  exists i, out = inl (mk (of_model (f B ol)) i).
+   (index loop: (b, i); range loop: (i', b)).  fixed_len: the receiver keeps its length (every loop that does not
+   append; a range loop over b.set evaluates len(b.set) once).  hi: an upper bound of the cursor (with the negated
+   loop condition it pins the cursor at the exit, for the code that follows the loop).
+   The same invariant serves every loop of a function written as several passes (common prefix, then the tail). *)
+Definition bulk_facts (f : list N -> list N -> list N) (fixed_len : bool) (lo hi : Z) (B ol : list N)
+    (S : Type) (mk : Bitmap -> Z -> S) (s : S) (done bs : list N) (i : Z) : Prop :=
+  s = mk (of_model (done ++ bs)) i /\ i = Z.of_nat (length done) /\
+  (fixed_len = true -> length (done ++ bs) = length B) /\ words_ok bs /\
+  done ++ f bs (skipn (length done) ol) = f B ol /\ i <= Z.max 0 hi /\ lo <= i.
+Definition bulk_inv f (meas : list N -> list N -> nat) fixed_len lo hi B ol S mk (m : nat) (s : S) : Prop :=
+  exists done bs i, bulk_facts f fixed_len lo hi B ol S mk s done bs i /\ m = meas bs (skipn (length done) ol).
+Definition bulk_brk f fixed_len lo hi B ol S mk (s : S) : Prop :=
+  exists done bs i, bulk_facts f fixed_len lo hi B ol S mk s done bs i /\ skipn (length done) ol = [] /\ f bs [] = bs.
+Definition no_ret {R : Type} (r : R) : Prop := False.
 
 Definition meas_recv (bs os : list N) : nat := length bs.
 Definition meas_oper (bs os : list N) : nat := length os.
@@ -313,17 +357,18 @@ Ltac lrw :=
         | progress (rewrite ?app_nil_r, ?zlen_zs, ?app_length)
         | progress (cbn [length]) ].
 Ltac lstep := first [ lrw | progress (autorewrite with bz) | break1 | progress (cbv beta iota) ].
-Ltac lunfold := unfold of_model; cbv beta iota zeta delta [bind lift m_get m_set m_make].
-Ltac post_tac :=
-  match goal with Hr : _ = ?f ?B ?ol |- bulk_post ?f ?B ?ol _ _ _ _ =>
-    unfold bulk_post; eexists; rewrite <- Hr; cbn [diff inter merge]; rewrite ?app_nil_r; reflexivity end.
-Ltac inv_side :=
+Ltac lunfold := unfold of_model; cbv beta iota zeta delta [bind lift m_get m_set m_make m_slice].
+Ltac lnorm := unfold meas_recv, meas_oper in *; reflect; rewrite ?zlen_zs, ?app_length, ?skipn_length in *; cbn [length] in *.
+
+(* the facts of the next state, after reflexivity has read done ++ [z] / bs off the new state *)
+Ltac facts_side :=
   match goal with
   | |- ?m = length _ => reflexivity
   | |- words_ok _ => assumption || constructor
-  | |- _ = Z.of_nat _ => rewrite ?app_length in *; cbn [length] in *; lia
-  | |- _ -> length _ = length _ => let H := fresh in intros H; repeat match goal with Hl : _ = true -> _ |- _ => specialize (Hl H) end;
-      rewrite ?app_length in *; cbn [length] in *; lia
+  | |- _ = Z.of_nat _ => lnorm; lia
+  | |- _ <= Z.max _ _ => lnorm; lia
+  | |- (_ <= _)%Z => lnorm; lia
+  | |- _ -> length _ = length _ => let H := fresh in intros H; repeat match goal with Hl : _ = true -> _ |- _ => specialize (Hl H) end; lnorm; lia
   | Hr : _ = ?f ?B ?ol, Hs : skipn _ ?ol = _ :: _ |- _ = ?f ?B ?ol =>
       rewrite <- Hr, <- ?app_assoc; cbn [app diff inter merge]; rewrite ?app_length; cbn [length];
       rewrite ?Nat.add_1_r, ?(skipn_cons_next _ _ _ _ Hs); reflexivity
@@ -331,38 +376,109 @@ Ltac inv_side :=
       rewrite <- Hr, <- ?app_assoc; cbn [app diff inter merge]; rewrite ?app_length; cbn [length];
       rewrite ?(skipn_all2 ol) by lia; cbn [diff inter merge]; rewrite ?app_nil_r; reflexivity
   end.
+Ltac facts_split := unfold bulk_facts; split; [ reflexivity | split; [ | split; [ | split; [ | split; [ | split ] ] ] ] ].
+Ltac facts_tac := facts_split; facts_side.
 Ltac inv_tac :=
-  unfold meas_recv, meas_oper in *;
   try match goal with |- context [{| Bitmap_set := zs (?d ++ [?y]) |}] => rewrite <- (app_nil_r (d ++ [y])) end;
   eexists; split;
-  [ | unfold bulk_inv; eexists _, _, _; split; [ reflexivity | repeat split; inv_side ] ];
-  cbn [length] in *; rewrite ?app_length, ?Nat.add_1_r; cbn [length];
+  [ | unfold bulk_inv; eexists _, _, _; split; [ facts_tac | reflexivity ] ];
+  lnorm; rewrite ?Nat.add_1_r;
   repeat match goal with Hs : skipn _ _ = _ :: _ |- _ => rewrite ?(skipn_cons_next _ _ _ _ Hs) end; cbn [length]; lia.
+(* break: the facts are those of the current state, and the operand is exhausted *)
+Ltac brk_tac :=
+  unfold bulk_brk; eexists _, _, _; split;
+  [ facts_split; try match goal with |- _ = true -> _ => intros _ end;
+    repeat match goal with Hs : skipn ?k ?l = _ |- context [skipn ?k ?l] => rewrite Hs end;
+    first [ assumption | lnorm; lia ]
+  | split; [ assumption | reflexivity ] ].
 
-(* the whole proof for one bulk loop and one state shape *)
-Ltac bulk_proof f meas fl B ol fuel mk :=
-  repeat autounfold with go2v; cbv beta zeta;
-  (* a loop bound computed before the loop (if len(o) < n { n = len(o) }) puts the loop under a conditional *)
-  unfold of_model; autorewrite with bz;
-  repeat match goal with |- (if ?c then _ else _) = _ => destruct c eqn:? end;
-  let out := fresh "out" in let E := fresh "E" in let i' := fresh "i'" in
-  match goal with |- context [while fuel ?c0 ?b0 ?p0 ?s0] =>
-    destruct (while_rule c0 b0 p0 (bulk_inv f meas fl B ol _ mk) (bulk_post f B ol _ _ mk)) with (fuel := fuel) (m := meas B ol) (s := s0)
-       as (out & E & (i' & ->)) end;
-  [ let Hw := fresh "Hw" in let m := fresh "m" in let s := fresh "s" in let done := fresh "done" in let bs := fresh "bs" in
-    let i := fresh "i" in let Hi := fresh "Hi" in let Hm := fresh "Hm" in let Hl := fresh "Hl" in let Hr := fresh "Hr" in
-    let x := fresh "x" in let y := fresh "y" in let os := fresh "os" in let Hs := fresh "Hs" in let Hx := fresh "Hx" in
-    let Hw' := fresh "Hw'" in
-    intros m s (done & bs & i & -> & Hi & Hm & Hl & Hw & Hr); try specialize (Hl eq_refl);
-    destruct bs as [|x bs]; [|pose proof (Forall_inv Hw) as Hx; pose proof (Forall_inv_tail Hw) as Hw'; cbv beta in Hx];
-    (destruct (skipn (length done) ol) as [|y os] eqn:Hs; [pose proof (skipn_nil_ge _ _ Hs)|pose proof (skipn_cons_lt _ _ _ _ Hs)]);
-    lunfold; repeat lstep; try (exfalso; reflect; rewrite ?app_length in *; cbn [length] in *; lia); first [post_tac | inv_tac]
-  | exists [], B, 0; cbn [app length skipn]; repeat split; trivial
-  | assumption
-  | rewrite E; reflexivity ].
+(* one iteration: from the facts (destructed) and both lists split into head / tail *)
+Ltac bulk_step ol :=
+  let m := fresh "m" in let s := fresh "s" in let done := fresh "done" in let bs := fresh "bs" in
+  let i := fresh "i" in let Hi := fresh "Hi" in let Hm := fresh "Hm" in let Hl := fresh "Hl" in let Hr := fresh "Hr" in
+  let x := fresh "x" in let y := fresh "y" in let os := fresh "os" in let Hs := fresh "Hs" in let Hx := fresh "Hx" in
+  let Hw := fresh "Hw" in let Hw' := fresh "Hw'" in let Hhi := fresh "Hhi" in let Hlo := fresh "Hlo" in
+  intros m s (done & bs & i & (-> & Hi & Hl & Hw & Hr & Hhi & Hlo) & Hm); try specialize (Hl eq_refl);
+  destruct bs as [|x bs]; [|pose proof (Forall_inv Hw) as Hx; pose proof (Forall_inv_tail Hw) as Hw'; cbv beta in Hx];
+  (destruct (skipn (length done) ol) as [|y os] eqn:Hs; [pose proof (skipn_nil_ge _ _ Hs)|pose proof (skipn_cons_lt _ _ _ _ Hs)]);
+  (let HsL := fresh "HsL" in pose proof (f_equal (@length N) Hs) as HsL; rewrite skipn_length in HsL; cbn [length] in HsL);
+  lunfold; repeat lstep; try (exfalso; lnorm; lia); first [ exact I | brk_tac | inv_tac ].
+
+(* the invariant at the entry of a loop: done / bs are read off the state, the facts come from the context *)
+Ltac inv_init :=
+  unfold bulk_inv;
+  match goal with |- context [zs (?d ++ ?b)] => exists d, b end;
+  eexists; split;
+  [ facts_split; try match goal with |- _ = true -> _ => intros _ end;
+    repeat match goal with Hs : skipn ?k ?l = _ |- context [skipn ?k ?l] => rewrite Hs end;
+    first [ assumption | reflexivity | (lnorm; lia) ]
+  | reflexivity ].
+
+(* the code after the last loop: the exit facts pin the cursor; both lists are split once more and the model function computes *)
+Ltac slice_tail :=
+  match goal with Hi : _ = Z.of_nat (length ?d) |- context [slice (zs ?ol) _ _] =>
+    rewrite (slice_zs_tail ol (length d)) by (lnorm; lia) end.
+Ltac final_leaf :=
+  autorewrite with bz;
+  repeat match goal with Hfb : ?f ?b [] = ?b, Hr : context [?f ?b []] |- _ => rewrite Hfb in Hr end;
+  first
+  [ solve [exfalso; lnorm; lia]                                          (* an unreachable combination of exits *)
+  | match goal with
+    | Hr : _ = ?f ?B ?ol |- _ => rewrite <- Hr; reflexivity               (* after a break: the state is the result *)
+    | Hr : ?d ++ ?f ?b ?o = ?f ?B ?ol |- _ =>
+      rewrite <- Hr;
+      let Hs := fresh "Hs" in
+      destruct b as [|? ?];
+      try (lazymatch o with skipn ?k ?l =>
+             destruct (skipn k l) as [|? ?] eqn:Hs; [pose proof (skipn_nil_ge _ _ Hs)|pose proof (skipn_cons_lt _ _ _ _ Hs)];
+             (let HsL := fresh "HsL" in pose proof (f_equal (@length N) Hs) as HsL; rewrite skipn_length in HsL; cbn [length] in HsL) end);
+      cbn [diff inter merge]; rewrite ?app_nil_r; try reflexivity; try congruence; exfalso; lnorm; lia
+    end ].
+Ltac final_tac := lunfold; repeat first [ slice_tail | lstep ]; final_leaf.
+
+(* run the loops of a function one after the other.  Per loop the state shape mk ((b, i) or (i', b)) and the cursor bound
+   hi (|b|, |other| or their minimum) are searched: an attempt counts only if the whole rest of the proof goes through. *)
+Ltac bulk_loop1 f meas fl B ol fuel mk hi k :=
+  lazymatch goal with
+  | |- context [while fuel ?c0 ?b0 ?p0 ?s0] =>
+      let Hx := fresh "Hx" in let out := fresh "out" in let E := fresh "E" in let X := fresh "X" in
+      let lo := lazymatch s0 with (?x, ?y) => lazymatch type of x with Z => x | _ => y end end in
+      eassert (Hx : _);
+      [ eapply (while_exit c0 b0 p0 (bulk_inv f meas fl lo hi B ol _ mk) (bulk_brk f fl lo hi B ol _ mk) no_ret) with (fuel := fuel) (s := s0);
+        [ bulk_step ol | inv_init | lnorm; lia ]
+      | destruct Hx as (out & E & X); destruct out as [?s|?r]; [|contradiction];
+        let done := fresh "done" in let bs := fresh "bs" in let i := fresh "i" in let Hi := fresh "Hi" in let Hl := fresh "Hl" in
+        let Hw := fresh "Hw" in let Hr := fresh "Hr" in let Hhi := fresh "Hhi" in let Hlo := fresh "Hlo" in let Hc := fresh "Hc" in let Hos := fresh "Hos" in let Hfb := fresh "Hfb" in
+        (destruct X as [(?m & (done & bs & i & (-> & Hi & Hl & Hw & Hr & Hhi & Hlo) & _) & Hc) | (done & bs & i & (-> & Hi & Hl & Hw & Hr & Hhi & Hlo) & Hos & Hfb)];
+         [ cbv beta iota in Hc; injection Hc as Hc | pose proof (skipn_nil_ge _ _ Hos); rewrite Hos in * ]);
+        try specialize (Hl eq_refl); rewrite E; clear E; unfold of_model in *; cbv beta iota delta [bind]; k ]
+  end.
+Ltac split_ifs := repeat match goal with |- (if ?c then _ else _) = _ => destruct c eqn:? end.
+Ltac bulk_go f meas fl B ol fuel :=
+  split_ifs;
+  lazymatch goal with
+  | |- context [while fuel _ _ _ _] =>
+      let mk1 := constr:(fun (b : Bitmap) (i : Z) => (b, i)) in
+      let mk2 := constr:(fun (b : Bitmap) (i : Z) => (i, b)) in
+      let h1 := constr:(Z.of_nat (length B)) in
+      let h2 := constr:(Z.of_nat (length ol)) in
+      let h3 := constr:(Z.min (Z.of_nat (length B)) (Z.of_nat (length ol))) in
+      let fl' := eval cbv in (negb fl) in
+      let k := (bulk_go f meas fl B ol fuel) in
+      first [ solve [bulk_loop1 f meas fl B ol fuel mk1 h1 k] | solve [bulk_loop1 f meas fl B ol fuel mk1 h2 k]
+            | solve [bulk_loop1 f meas fl B ol fuel mk1 h3 k]
+            | solve [bulk_loop1 f meas fl B ol fuel mk2 h1 k] | solve [bulk_loop1 f meas fl B ol fuel mk2 h2 k]
+            | solve [bulk_loop1 f meas fl B ol fuel mk2 h3 k]
+            | solve [bulk_loop1 f meas fl' B ol fuel mk1 h1 k] | solve [bulk_loop1 f meas fl' B ol fuel mk1 h2 k]
+            | solve [bulk_loop1 f meas fl' B ol fuel mk1 h3 k]
+            | solve [bulk_loop1 f meas fl' B ol fuel mk2 h1 k] | solve [bulk_loop1 f meas fl' B ol fuel mk2 h2 k]
+            | solve [bulk_loop1 f meas fl' B ol fuel mk2 h3 k] ]
+  | |- _ => solve [final_tac]
+  end.
 Ltac bulk_loop f meas fl B ol fuel :=
-  first [ solve [bulk_proof f meas fl B ol fuel (fun (b : Bitmap) (i : Z) => (b, i))]
-        | solve [bulk_proof f meas fl B ol fuel (fun (b : Bitmap) (i : Z) => (i, b))] ].
+  repeat autounfold with go2v; cbv beta zeta; unfold of_model; autorewrite with bz;
+  change (zs B) with (zs ([] ++ B));
+  bulk_go f meas fl B ol fuel.
 
 Lemma code_Diff_N B ol fuel : words_ok B -> (length B < fuel)%nat ->
   g_Bitmap_Diff fuel (of_model B) (of_model ol) = Ret (of_model (diff B ol)).
@@ -401,8 +517,33 @@ Ltac len_proof L fuel mk :=
   | exists [], L, 0, 0; cbn [app length]; repeat split; trivial
   | assumption
   | rewrite E; reflexivity ].
+(* ... and counting from the last word down: rp = the words still to count, reversed *)
+Definition len_inv_desc (L : list N) (S : Type) (mk : Z -> Z -> S) (m : nat) (s : S) : Prop :=
+  exists rp suf i c, s = mk i c /\ i = Z.of_nat (length rp) - 1 /\ rev rp ++ suf = L /\ m = length rp /\ c = Z.of_nat (len suf).
+Ltac len_proof_desc L fuel mk :=
+  repeat autounfold with go2v; cbv beta zeta;
+  let out := fresh "out" in let E := fresh "E" in let i' := fresh "i'" in
+  match goal with |- context [while fuel ?c0 ?b0 ?p0 ?s0] =>
+    destruct (while_rule c0 b0 p0 (len_inv_desc L _ mk) (len_post L _ _ mk)) with (fuel := fuel) (m := length L) (s := s0)
+       as (out & E & (i' & ->)) end;
+  [ let m := fresh "m" in let s := fresh "s" in let rp := fresh "rp" in let suf := fresh "suf" in
+    let i := fresh "i" in let c := fresh "c" in let Hi := fresh "Hi" in let HL := fresh "HL" in let Hm := fresh "Hm" in
+    let Hc := fresh "Hc" in let x := fresh "x" in
+    intros m s (rp & suf & i & c & -> & Hi & HL & Hm & Hc); subst L;
+    destruct rp as [|x rp]; cbn [rev app length] in *; rewrite <- ?app_assoc in *; cbn [app] in *;
+    lunfold; repeat first [ rewrite get_at_mid by (rewrite ?rev_length; lia) | lstep ];
+    try (exfalso; subst c; reflect; rewrite ?app_length, ?rev_length in *; cbn [length] in *; lia);
+    [ unfold len_post; eexists; subst c; reflexivity
+    | rewrite ?ones_count_popcount; eexists; split;
+      [ | unfold len_inv_desc; exists rp, (x :: suf); eexists _, _; split; [ reflexivity | repeat split ] ];
+      subst c; cbn [length len] in *; try reflexivity; lia ]
+  | exists (rev L), [], (Z.of_nat (length L) - 1), 0; rewrite rev_involutive, app_nil_r, rev_length; unfold of_model; cbn [Bitmap_set];
+    rewrite ?zlen_zs; repeat split; trivial
+  | assumption
+  | rewrite E; reflexivity ].
 Ltac len_loop L fuel :=
-  first [ solve [len_proof L fuel (fun (i c : Z) => (i, c))] | solve [len_proof L fuel (fun (i c : Z) => (c, i))] ].
+  first [ solve [len_proof L fuel (fun (i c : Z) => (i, c))] | solve [len_proof L fuel (fun (i c : Z) => (c, i))]
+        | solve [len_proof_desc L fuel (fun (i c : Z) => (i, c))] | solve [len_proof_desc L fuel (fun (i c : Z) => (c, i))] ].
 
 Lemma code_Len_N L fuel : (length L < fuel)%nat -> g_Bitmap_Len fuel (of_model L) = Ret (Z.of_nat (len L)).
 Proof. intros Hf. len_loop L fuel. Qed.
